@@ -196,6 +196,9 @@ def gen_scale(rng, index):
 def gen_cases(tier, seed):
     for i in range(4 if tier == 'quick' else 64):
         yield gen_scale(random.Random(f'C15/scale/{seed}/{tier}/{i}'), i)
+    # descriptions populated into a world that is already in use
+    for i in range(300 if tier == 'quick' else 16 * 600):
+        yield gen_prepop(random.Random(f'C15/prepop/{seed}/{tier}/{i}'))
     n = 2500 if tier == 'quick' else 16 * 5000
     for i in range(n):
         case = gen_one(random.Random(f'C15/{seed}/{tier}/{i}'), tier, i)
@@ -315,9 +318,108 @@ def run_locale(case):
     return res
 
 
+def gen_prepop(rng):
+    residents = sorted(rng.sample(range(1, 9), rng.randint(1, 5)))
+    doomed = [r for r in residents if rng.random() < 0.6]
+    listed = []
+    for k in range(rng.randint(2, 6)):
+        if rng.random() < 0.4:
+            listed.append(rng.choice([100 + k, f'x{k}', (k, 'id')]))
+        else:
+            listed.append(None)         # automatic identifier
+    return {'mode': 'prepopulated', 'residents': residents, 'doomed': doomed,
+            'listed': listed, 'drawn': rng.randint(0, 3)}
+
+
+def run_prepop(case):
+    """A description populated into a world that is already in use: some
+    entities live under integer ids the automatic counter has not reached
+    yet, some of them await their deferred deletion. Every listed entity
+    becomes an entity of its own (an automatic identifier never falls on an
+    id that owns components), the residents are not touched, and the next
+    process() takes the doomed ones away and nothing else."""
+    desper = import_desper()
+    res = Res()
+
+    class Tag:
+        def __init__(self, label):
+            self.label = label
+
+    w = desper.World()
+    for _ in range(case['drawn']):
+        w.delete_entity(w.create_entity(Tag('scratch')), immediate=True)
+    residents = {}
+    for i in case['residents']:
+        residents[i] = Tag(('resident', i))
+        w.create_entity(residents[i], entity_id=i)
+    for i in case['doomed']:
+        w.delete_entity(i)
+    desc = {'entities': []}
+    for k, eid in enumerate(case['listed']):
+        ent = {'components': [{'type': Tag, 'args': [('listed', k)]}]}
+        if eid is not None:
+            ent['id'] = tuple(eid) if isinstance(eid, list) else eid
+        desc['entities'].append(ent)
+    try:
+        desper.populate_world_from_dict(w, desc)
+    except Exception as ex:
+        res.div(0, 'load-raised', 'populating a world that is in use raised',
+                'no exception', repr(ex))
+        return res
+
+    def story(when, gone=()):
+        owners = {}
+        for e, c in w.get(Tag):
+            owners.setdefault(c.label, []).append(e)
+        for i, c in residents.items():
+            want = [] if i in gone else [i]
+            if owners.get(c.label, []) != want \
+                    or (i not in gone and [x.label for x in
+                                           w.get_components(i)]
+                        != [c.label]):
+                res.div(1, 'resident-entity-touched', f'{when}: resident '
+                        f'entity {i} (awaiting deletion: '
+                        f'{i in case["doomed"]})', [c.label],
+                        [x.label for x in w.get_components(i)])
+                return False
+        for k, eid in enumerate(case['listed']):
+            at = owners.get(('listed', k), [])
+            res.stats['prepopulated_entities_checked'] += 1
+            if len(at) != 1 or at[0] in residents or (
+                    eid is not None and at[0] != (
+                        tuple(eid) if isinstance(eid, list) else eid)) \
+                    or len(w.get_components(at[0])) != 1 \
+                    or not w.entity_exists(at[0]):
+                res.div(1, 'listed-entity-merged', f'{when}: listed entity '
+                        f'{k} (id {eid!r}) is not an entity of its own with '
+                        'exactly its listed component', 'a fresh identifier',
+                        {'owners': at, 'components': [
+                            x.label for e in at
+                            for x in w.get_components(e)],
+                         'exists': [w.entity_exists(e) for e in at]})
+                return False
+        return True
+
+    if not story('after populate'):
+        return res
+    try:
+        w.process(1)
+    except Exception as ex:
+        res.div(2, 'process-raised', 'the frame after the population raised',
+                'no exception', repr(ex))
+        return res
+    story('after the next process()', gone=set(case['doomed']))
+    res.nontrivial = bool(case['doomed']) and None in case['listed']
+    res.tags['prepopulated'].add((len(case['residents']),
+                                  len(case['doomed'])))
+    return res
+
+
 def run_case(case):
     if case.get('mode') == 'locale':
         return run_locale(case)
+    if case.get('mode') == 'prepopulated':
+        return run_prepop(case)
     desper = import_desper()
     import vf_fixtures
     vf_fixtures.build()
@@ -713,6 +815,16 @@ def _run(case, desper, fx, res, tmp):
 
 
 def shrink(case):
+    if case.get('mode') == 'prepopulated':
+        for key in ('listed', 'residents', 'doomed'):
+            for i in range(len(case[key])):
+                if len(case[key]) > 1 or key == 'doomed':
+                    cand = dict(case, **{key: case[key][:i]
+                                         + case[key][i + 1:]})
+                    cand['doomed'] = [d for d in cand['doomed']
+                                      if d in cand['residents']]
+                    yield cand
+        return
     if case.get('mode') == 'locale':
         if len(case['strings']) > 1:
             yield dict(case, strings=case['strings'][:-1])
